@@ -143,6 +143,7 @@ static int g_native_exit;
 #ifndef REPLAY
 #include "fmt_trace.h"
 void exit(int c) { (void)c; g_native_exit = 1; __CPROVER_assume(0); }
+size_t strnlen(const char *s, size_t n) { size_t i = 0; while (i < n && s[i]) i++; return i; }   /* no CBMC library model */
 #endif
 int verif_abort_flag;
 #define main nl_genc_main
